@@ -46,7 +46,7 @@ def Gen.ShippedEnv.winClass (e : Gen.ShippedEnv) : Bool :=
   | .empty sh _ _ => decide (4 ≤ sh.h ∧ 4 ≤ sh.w) && e.trans == [.moveAgent, .turnAgent] && e.term.isReachExit
   | .rooms sh lh lw ys xs =>
     decide (4 ≤ sh.h ∧ 3 ≤ sh.w) && decide (1 ≤ lh ∧ 1 ≤ lw) && splitsOKb sh.h ys && splitsOKb sh.w xs &&
-      !hasDup ys && !hasDup xs && e.trans == [.moveAgent, .turnAgent] && e.term.isReachExit
+      e.trans == [.moveAgent, .turnAgent] && e.term.isReachExit
   | .dynamicObstacles sh n ra =>
     ((sh == ⟨5, 5⟩ && n == 1) || (sh == ⟨7, 7⟩ && n == 2)) && !ra && e.trans == obsChain && e.term.isBumpAny
   | .keydoor sh => decide (4 ≤ sh.h ∧ 5 ≤ sh.w) && e.trans == kdChain && e.term.isReachExit
@@ -75,9 +75,9 @@ theorem winnable_of_class (e : Gen.ShippedEnv) (hc : e.winClass = true) (d : Dra
   | rooms sh lh lw ys xs =>
     rw [hr] at hc
     simp only [Bool.and_eq_true, decide_eq_true_eq, beq_iff_eq, Bool.not_eq_true'] at hc
-    obtain ⟨⟨⟨⟨⟨⟨⟨hv, hl⟩, sy⟩, sx⟩, dy⟩, dx⟩, ht⟩, hterm⟩ := hc
+    obtain ⟨⟨⟨⟨⟨hv, hl⟩, sy⟩, sx⟩, ht⟩, hterm⟩ := hc
     rw [ht, TermFn.eq_reachExit hterm]
-    exact C14_rooms sh lh lw ys xs d hv hl ((splitsOKb_iff _ _).mp sy) ((splitsOKb_iff _ _).mp sx) dy dx [.turnAgent] plainTurn
+    exact C14_rooms sh lh lw ys xs d hv hl ((splitsOKb_iff _ _).mp sy) ((splitsOKb_iff _ _).mp sx) [.turnAgent] plainTurn
   | dynamicObstacles sh n ra =>
     rw [hr] at hc
     simp only [Bool.and_eq_true, Bool.or_eq_true, beq_iff_eq, Bool.not_eq_true'] at hc
